@@ -28,7 +28,7 @@
  *                   Prints rc, number of callback calls, whether *dst is NULL, and on success
  *                   equal both ways, dumps, node counts, shared addresses, identical
  *                   serializations (of 6), tags found on the copy; live blocks at the end.
- *   B <a> <conds> <mut>  the source is built with the members selected by conds (cond;...,
+ *   B <a> <conds> [<ud>] <mut>  the source is built with the members selected by conds (cond;...,
  *                   same atoms as above, evaluated on the member's value node) added with
  *                   JSON_C_OBJECT_ADD_CONSTANT_KEY from exact-size heap buffers owned by the
  *                   driver.  Deep copy; key pointers (lh_entry_k) of the copy compared with
@@ -36,6 +36,14 @@
  *                   place; the source destroyed and the buffers poisoned and freed; after each
  *                   step the copy is dumped, serialized, looked up key by key and compared
  *                   with an independently built tree; finally mut is applied to the copy.
+ *                   ud = '-' | <cond>=<D|N>;...: source nodes (any type) given the stock serializer
+ *                   json_object_userdata_to_json_string with the text "<u<number>>": D = in a
+ *                   strdup released by json_object_free_userdata, N = in an exact-size driver
+ *                   buffer with a NULL delete function.  Their userdata pointers are checked
+ *                   like the names, the N buffers are rewritten, poisoned and freed with the
+ *                   name buffers, and the texts / delete functions of source and copy are
+ *                   printed (<number>:<hextext>:<D|N>,...).  live= is relative to the start of
+ *                   the case; blocks the library never releases are then released by the driver.
  * mut = <path>:<op>, path = (/i<idx> | /k<hexkey|->)*,
  * op = A<jv> | P<hexkey|->=<jv> | K<hexkey|-> | I<dec> | U<dec> | B<0|1> | S<hex|-> | D<16hex>
  *    | Z<idx>=<jv> (array_put_idx) | X<idx>,<count> (array_del_idx).
@@ -111,6 +119,7 @@ static struct json_object *parse_tree(const char *s)
 }
 
 /* apply the mutation; 1 = done, 0 = path or type does not fit (nothing changed) */
+static long live_base;      /* xa_live when the case started */
 static int globals_dirty;
 static void reset_globals(void)
 {
@@ -232,7 +241,7 @@ static void run_copy(char *sa, char *mut)
 		printf("C %d %s | ", rc, errno_name(errno));
 		json_object_put(c1);
 		json_object_put(a);
-		reset_globals(); printf("live=%ld", xa_live);
+		reset_globals(); printf("live=%ld", xa_live - live_base);
 		return;
 	}
 	printf("C %d %d %d ", rc, json_object_equal(a, c1), json_object_equal(c1, a));
@@ -272,7 +281,7 @@ static void run_copy(char *sa, char *mut)
 	printf(" | D1 %d ", json_object_put(c1)); eq_dump(a);
 	printf(" | D2 %d ", json_object_put(a)); eq_dump(c2);
 	json_object_put(c2);
-	reset_globals(); printf(" | live=%ld", xa_live);
+	reset_globals(); printf(" | live=%ld", xa_live - live_base);
 }
 
 /* ---- scripted shallow-copy callback ---- */
@@ -449,7 +458,7 @@ static void run_cb_copy(char *sa, const char *rules, const char *tags)
 		json_object_put(c);
 	}
 	json_object_put(a);
-	reset_globals(); printf(" | live=%ld", xa_live);
+	reset_globals(); printf(" | live=%ld", xa_live - live_base);
 }
 
 /* ---- members whose names live in driver-owned memory ---- */
@@ -543,7 +552,8 @@ static void lookup_walk(struct json_object *ref, struct json_object *o, long *fo
 	}
 }
 
-/* dump, lookups, comparison with the reference tree, serialization against the saved texts */
+static void ud_dump(struct json_object *o);
+/* dump, lookups, comparison with the reference tree, serialization against the saved texts, userdata */
 static void observe_copy(struct json_object *c, struct json_object *ref, char *const saved[2], const size_t savedlen[2])
 {
 	long found = 0, total = 0;
@@ -556,21 +566,94 @@ static void observe_copy(struct json_object *c, struct json_object *ref, char *c
 		const char *t = json_object_to_json_string_length(c, FLAGS[i + 1], &l);
 		if (t && l == savedlen[i] && memcmp(t, saved[i], l) == 0) same++;
 	}
-	printf(" %d", same);
+	printf(" %d ", same);
+	ud_dump(c);
 }
 
-static void run_keys(char *sa, const char *conds, const char *mut)
+/* ---- nodes with the stock userdata serializer ---- */
+static struct { char *p; size_t len; } ub[8192];
+static size_t nub;
+
+static void ud_walk(struct json_object *o, const char *rules, char ptype, int depth, long idx, const char *key, long *counter)
+{
+	struct node_ctx c;
+	char ans, text[40];
+	if (!o) return;
+	c.callno = (*counter)++; c.type = type_char(o); c.ptype = ptype; c.depth = depth; c.idx = idx; c.key = key;
+	ans = eval_rules(rules, 1, &c);
+	snprintf(text, sizeof text, "<u%ld>", c.callno);
+	if (ans == 'D')
+		json_object_set_serializer(o, json_object_userdata_to_json_string, strdup(text), json_object_free_userdata);
+	else if (ans == 'N' && nub < 8192) {
+		size_t n = strlen(text);
+		char *buf = (char *)(malloc)(n + 1);              /* exact size */
+		memcpy(buf, text, n + 1);
+		ub[nub].p = buf; ub[nub].len = n; nub++;
+		json_object_set_serializer(o, json_object_userdata_to_json_string, buf, NULL);
+	}
+	if (c.type == 'a') {
+		size_t i, n = json_object_array_length(o);
+		for (i = 0; i < n; i++) ud_walk(json_object_array_get_idx(o, i), rules, 'a', depth + 1, (long)i, NULL, counter);
+	} else if (c.type == 'o') {
+		struct lh_entry *e;
+		for (e = json_object_get_object(o)->head; e; e = e->next)
+			ud_walk((struct json_object *)lh_entry_v(e), rules, 'o', depth + 1, -1, (const char *)lh_entry_k(e), counter);
+	}
+}
+
+/* nodes using the stock serializer, in pre-order: <number>:<hextext>:<D|N> */
+struct uset { const void **v; unsigned char *nodel; size_t n, cap; };
+static void ud_scan(struct json_object *o, long *counter, int *first, int print, struct uset *s)
+{
+	long my;
+	if (!o) return;
+	my = (*counter)++;
+	if (o->_to_json_string == json_object_userdata_to_json_string && o->_userdata) {
+		if (print) {
+			if (!*first) putchar(',');
+			*first = 0;
+			printf("%ld:", my); puthex((unsigned char *)o->_userdata, strlen((char *)o->_userdata));
+			printf(":%c", o->_user_delete ? 'D' : 'N');
+		}
+		if (s) {
+			if (s->n == s->cap) {
+				s->cap = s->cap ? s->cap * 2 : 64;
+				s->v = (const void **)(realloc)(s->v, s->cap * sizeof(*s->v));
+				s->nodel = (unsigned char *)(realloc)(s->nodel, s->cap);
+			}
+			s->v[s->n] = o->_userdata; s->nodel[s->n] = o->_user_delete ? 0 : 1; s->n++;
+		}
+	}
+	if (json_object_get_type(o) == json_type_array) {
+		size_t i, n = json_object_array_length(o);
+		for (i = 0; i < n; i++) ud_scan(json_object_array_get_idx(o, i), counter, first, print, s);
+	} else if (json_object_get_type(o) == json_type_object) {
+		struct lh_entry *e;
+		for (e = json_object_get_object(o)->head; e; e = e->next) ud_scan((struct json_object *)lh_entry_v(e), counter, first, print, s);
+	}
+}
+static void ud_dump(struct json_object *o)
+{
+	long counter = 0; int first = 1;
+	ud_scan(o, &counter, &first, 1, NULL);
+	if (first) putchar('-');
+}
+
+static void run_keys(char *sa, const char *conds, const char *udrules, const char *mut)
 {
 	const char *p = sa;
 	long counter = 0;
 	int err = 0, rc, i;
 	struct json_object *src, *ref, *c = NULL;
 	struct kset ks = {0}, kc = {0};
-	size_t j, q, nconst_src = 0, kshared = 0, kinbuf = 0, kconst = 0;
+	struct uset us = {0}, uc = {0};
+	size_t j, q, nconst_src = 0, kshared = 0, kinbuf = 0, kconst = 0, ushared = 0, uinbuf = 0;
 	char *saved[2] = {0}; size_t savedlen[2] = {0};
-	nkb = 0;
+	nkb = 0; nub = 0;
 	src = build_ck(&p, 0, &counter, conds, &err);
 	if (err || *p) printf("BADTREE ");
+	counter = 0;
+	ud_walk(src, udrules, 'r', 0, -1, NULL, &counter);
 	ref = parse_tree(sa);                       /* the same value, built with ordinary members */
 	errno = 0;
 	rc = json_object_deep_copy(src, &c, NULL);
@@ -578,7 +661,8 @@ static void run_keys(char *sa, const char *conds, const char *mut)
 		printf("B %d %s", rc, errno_name(errno));
 		json_object_put(c); json_object_put(src); json_object_put(ref);
 		for (j = 0; j < nkb; j++) (free)(kb[j].p);
-		reset_globals(); printf(" | live=%ld", xa_live);
+		for (j = 0; j < nub; j++) (free)(ub[j].p);
+		reset_globals(); printf(" | live=%ld", xa_live - live_base);
 		return;
 	}
 	printf("B %d %d %d ", rc, json_object_equal(src, c), json_object_equal(c, src));
@@ -591,15 +675,28 @@ static void run_keys(char *sa, const char *conds, const char *mut)
 		for (q = 0; q < nkb; q++)
 			if ((const char *)kc.v[j] >= kb[q].p && (const char *)kc.v[j] <= kb[q].p + kb[q].len) { kinbuf++; break; }
 	}
-	printf(" %zu %zu %zu %zu %zu", nkb, nconst_src, kshared, kinbuf, kconst);
+	printf(" %zu %zu %zu %zu %zu ", nkb, nconst_src, kshared, kinbuf, kconst);
 	(free)(ks.v); (free)(ks.is_const); (free)(kc.v); (free)(kc.is_const);
-	if ((kshared || kinbuf || kconst) && !getenv("EQ_KEYS_GO_ON")) {
-		/* the copy does not own its names: going on would only read freed memory
+	/* userdata of the stock serializer: texts, and where the copy keeps them */
+	ud_dump(src); putchar(' '); ud_dump(c);
+	{ long k = 0; int f = 1; ud_scan(src, &k, &f, 0, &us); k = 0; f = 1; ud_scan(c, &k, &f, 0, &uc); }
+	for (j = 0; j < uc.n; j++) {
+		for (q = 0; q < us.n; q++) if (uc.v[j] == us.v[q]) { ushared++; break; }
+		for (q = 0; q < nub; q++)
+			if ((const char *)uc.v[j] >= ub[q].p && (const char *)uc.v[j] <= ub[q].p + ub[q].len) { uinbuf++; break; }
+	}
+	printf(" %zu %zu %zu", nub, ushared, uinbuf);
+	(free)(us.v); (free)(us.nodel);
+	if ((kshared || kinbuf || kconst || ushared || uinbuf) && !getenv("EQ_KEYS_GO_ON")) {
+		/* the copy does not own what it stores: going on would only read freed memory
 		 * (EQ_KEYS_GO_ON=1 goes on nevertheless: used to validate the later steps) */
 		printf(" | SHARED");
 		json_object_put(c); json_object_put(src); json_object_put(ref);
 		for (j = 0; j < nkb; j++) (free)(kb[j].p);
-		reset_globals(); printf(" | live=%ld", xa_live);
+		for (j = 0; j < nub; j++) (free)(ub[j].p);
+		for (j = 0; j < uc.n; j++) if (uc.nodel[j]) { int mine = 1; for (q = 0; q < nub; q++) if (uc.v[j] == (void *)ub[q].p) mine = 0; if (mine) json_object_free_userdata(NULL, (void *)uc.v[j]); }
+		(free)(uc.v); (free)(uc.nodel);
+		reset_globals(); printf(" | live=%ld", xa_live - live_base);
 		return;
 	}
 	for (i = 0; i < 2; i++) {
@@ -607,19 +704,25 @@ static void run_keys(char *sa, const char *conds, const char *mut)
 		const char *t = json_object_to_json_string_length(c, FLAGS[i + 1], &l);
 		saved[i] = (char *)(malloc)(l + 1); memcpy(saved[i], t, l); savedlen[i] = l;
 	}
-	/* the caller modifies its buffers in place (the source's names change with them) */
+	/* the caller modifies its buffers in place (the source's names and texts change with them) */
 	for (j = 0; j < nkb; j++) if (kb[j].len) kb[j].p[0] = kb[j].p[0] == 'Z' ? 'Y' : 'Z';
-	printf(" | I "); eq_dump(src); putchar(' ');
+	for (j = 0; j < nub; j++) if (ub[j].len) ub[j].p[0] = ub[j].p[0] == 'Z' ? 'Y' : 'Z';
+	printf(" | I "); eq_dump(src); putchar(' '); ud_dump(src); putchar(' ');
 	observe_copy(c, ref, saved, savedlen);
 	/* the source goes away, and with it the caller's obligation to keep the buffers */
 	printf(" | F %d ", json_object_put(src));
 	for (j = 0; j < nkb; j++) { memset(kb[j].p, 0xAA, kb[j].len + 1); (free)(kb[j].p); }
+	for (j = 0; j < nub; j++) { memset(ub[j].p, 0xAA, ub[j].len + 1); (free)(ub[j].p); }
 	observe_copy(c, ref, saved, savedlen);
 	i = mutate(c, mut);
 	printf(" | P %s ", i ? "ok" : "bad"); eq_dump(c);
 	json_object_put(c); json_object_put(ref);
 	(free)(saved[0]); (free)(saved[1]);
-	reset_globals(); printf(" | live=%ld", xa_live);
+	reset_globals(); printf(" | live=%ld", xa_live - live_base);
+	/* texts the library duplicated for nodes without a delete function are released by nobody:
+	 * the driver does it, after having reported them */
+	for (j = 0; j < uc.n; j++) if (uc.nodel[j]) json_object_free_userdata(NULL, (void *)uc.v[j]);
+	(free)(uc.v); (free)(uc.nodel);
 }
 
 void run_case(char *rest)
@@ -628,17 +731,18 @@ void run_case(char *rest)
 	int n = 0;
 	for (t = strtok_r(rest, " ", &save); t && n < 7; t = strtok_r(NULL, " ", &save)) tok[n++] = t;
 	xa_reset();
+	live_base = xa_live;
 	if (n == 3 && !strcmp(tok[0], "E")) {
 		struct json_object *a = parse_tree(tok[1]), *b = parse_tree(tok[2]);
 		printf("E %d %d %d %d", json_object_equal(a, b), json_object_equal(b, a), json_object_equal(a, a), json_object_equal(b, b));
 		json_object_put(a); json_object_put(b);
-		reset_globals(); printf(" live=%ld", xa_live);
+		reset_globals(); printf(" live=%ld", xa_live - live_base);
 	} else if (n == 4 && !strcmp(tok[0], "T")) {
 		struct json_object *a = parse_tree(tok[1]), *b = parse_tree(tok[2]), *c = parse_tree(tok[3]);
 		printf("T %d %d %d %d %d %d", json_object_equal(a, b), json_object_equal(b, c), json_object_equal(a, c),
 		       json_object_equal(b, a), json_object_equal(c, b), json_object_equal(c, a));
 		json_object_put(a); json_object_put(b); json_object_put(c);
-		reset_globals(); printf(" live=%ld", xa_live);
+		reset_globals(); printf(" live=%ld", xa_live - live_base);
 	} else if (n == 2 && !strcmp(tok[0], "X")) {
 		struct json_object *a = parse_tree(tok[1]);
 		struct json_object *w1 = json_object_new_array(), *w2 = json_object_new_array();
@@ -649,7 +753,7 @@ void run_case(char *rest)
 		json_object_object_add(o2, "k", json_object_get(a));
 		printf("X %d %d", json_object_equal(w1, w2), json_object_equal(o1, o2));
 		json_object_put(w1); json_object_put(w2); json_object_put(o1); json_object_put(o2);
-		reset_globals(); printf(" live=%ld", xa_live);
+		reset_globals(); printf(" live=%ld", xa_live - live_base);
 	} else if ((n == 5 || n == 6) && !strcmp(tok[0], "H")) {
 		char none[] = "-";
 		char *hg = n == 6 ? tok[5] : none;
@@ -680,9 +784,11 @@ void run_case(char *rest)
 			printf(" %d %d %d", same, json_object_equal(c, b), json_object_equal(b, c));
 		}
 		json_object_put(a); json_object_put(b); json_object_put(c);
-		reset_globals(); printf(" | live=%ld", xa_live);
+		reset_globals(); printf(" | live=%ld", xa_live - live_base);
 	} else if (n == 4 && !strcmp(tok[0], "B")) {
-		run_keys(tok[1], tok[2], tok[3]);
+		run_keys(tok[1], tok[2], "-", tok[3]);
+	} else if (n == 5 && !strcmp(tok[0], "B")) {
+		run_keys(tok[1], tok[2], tok[3], tok[4]);
 	} else if (n == 4 && !strcmp(tok[0], "Y")) {
 		run_cb_copy(tok[1], tok[2], tok[3]);
 	} else if (n == 3 && !strcmp(tok[0], "C")) {
